@@ -37,17 +37,6 @@ func NewMask(group kyber.Group, publics []kyber.Point, myKey kyber.Point) (*Mask
 	}
 	m.mask = make([]byte, m.Len())
 
-	if myKey != nil {
-		for i, key := range publics {
-			if key.Equal(myKey) {
-				err := m.SetBit(i, true)
-				return m, err
-			}
-		}
-
-		return nil, errors.New("key not found")
-	}
-
 	var err error
 	m.publicCoefs, err = hashPointToR(group, publics)
 	if err != nil {
@@ -58,6 +47,17 @@ func NewMask(group kyber.Group, publics []kyber.Point, myKey kyber.Point) (*Mask
 	for i, pub := range publics {
 		pubC := pub.Clone().Mul(m.publicCoefs[i], pub)
 		m.publicTerms[i] = pubC.Add(pubC, pub)
+	}
+
+	if myKey != nil {
+		for i, key := range publics {
+			if key.Equal(myKey) {
+				err := m.SetBit(i, true)
+				return m, err
+			}
+		}
+
+		return nil, errors.New("key not found")
 	}
 
 	return m, nil
